@@ -64,7 +64,8 @@ pub fn compare_eval(r: &RedeemNode, env: &envs::Env, out: &mut Out) -> Result<&'
 }
 
 fn run(ctx: &Ctx, out: &mut Out) {
-    let specs = envs::one_deviation_envs();
+    let mut specs = envs::one_deviation_envs();
+    specs.extend(envs::positional_envs());
     let built: Vec<(String, envs::Built)> = specs.iter().map(|(n, s)| (n.clone(), envs::build(s))).collect();
     leg_population(ctx, out, &built);
     leg_jets(ctx, out, &built);
